@@ -67,6 +67,9 @@ CLAIMS['C08'] = ('Bounded symbolic model checking of the real Aberrations / Aber
     'each per-surface third-order term = Welford surface contribution / (2 n\'u\') (oracle written from curvatures, indices and the paraxial rays), sums = -Welford S_I..S_V, defining identities (TCC=3CC, longitudinal = transverse/(-u\'), accessors, seidels(), operands), '
     'stop-shift invariance of S_I and S_IV, first-order colour terms with a symbolic-dispersion model glass (off-by-one height: known finding F20) and after a medium edit.',
     'paraxial marginal/chief rays taken from the library (their correctness is C04); the small-aperture limit clause (real ray error -> TSC) is in the thorough tier via truncated power series; conics/aspheres not covered (property restricts to spheres and planes)')
+CLAIMS['C05'] = ('Bounded symbolic model checking on truncated power series: the REAL ray-trace code (generate_rays, Surface._trace_real, conic intersection, normals, refract/reflect, the sequential trace) is executed on series in the scale factor eps with symbolic coefficients; '
+    'the limit statement becomes identities between coefficients (eps^0 = 0, eps^1 = paraxial value, eps^2 = 0) decided unsat by the solver: one-surface step for sphere/conic/plane/mirror from an arbitrary near-axis ray (induction over surfaces), and whole K=1..2 lenses against Paraxial.marginal_ray / chief_ray incl. the stop-centre clause.',
+    'formal Taylor statement (limit and quadratic rate as eps -> 0); no finite-eps error bound; K<=2 monolithic, any K via the step contract; floats as reals; separated surfaces (t > 0)')
 NOT_YET = 'check not built yet in this round (work in progress; see DESIGN.md section 6 for the plan)'
 
 props = [json.loads(l) for l in open(os.path.join(ROOT, 'properties.jsonl'))]
